@@ -31,6 +31,8 @@ def regenerate_all():
         translate_alias()
     except Broken as b:
         ALIAS_BROKEN = b
+    from lib import drvgen
+    drvgen.translate()
     from lib import blegen
     BLE_BROKEN = None
     try:
